@@ -81,7 +81,7 @@ def shard(ctx, budget_s):
     deadline = time.time() + budget_s
     n = 0
     while time.time() < deadline or n == 0:
-        cfg = gen.rnd_config(rng, logger="c" if (n + ctx.shard) % 2 == 0 else "l", level=rng.choice([0, 0, 3, 5]))
+        cfg = gen.rnd_config(rng, logger="c" if (n + ctx.shard) % 2 == 0 else "l", level=rng.choice([0, 0, 3, 5]), single_family=True)
         ctx.case(cfg)
 
         def on_reply(f, r, tag):
@@ -145,4 +145,4 @@ def run(tier, seed):
     v = core.Verdict(PROP, tier, seed)
     v.merge(core.run_shards(shard, PROP, tier, seed, budget_s=25 if tier == "quick" else 300))
     v.extra["distinct_event_words"] = len(v.extra.get("event_words", {}))
-    return v.finish(RULE, floor=100, assumptions=ASSUME)
+    return v.finish(RULE, floor=50, assumptions=ASSUME)
